@@ -40,6 +40,7 @@ BS = "net::codec::BobState"
 
 EXPLANATION += ' Round 9: (R9) declined-session cells of net::handle_connection: whatever closing step fails, the error of a request we declined is the Abort or names no document; (R11) = C12.R4: the event fan-out that runs inside the store actor does not panic on closed subscribers.'
 EXPLANATION += ' (R12, round 10) LiveActor::on_sync_finished evaluated on session result x finish() answer x subscribers x pending content: the peer is registered as useful exactly once after a successful session, never after a failed or declined one.'
+EXPLANATION += ' (R13, round 11) every completion of our dial but the AlreadySyncing decline reaches on_sync_finished (the dial-completion cells of C11.R3).'
 
 
 def _mk_frame(E, f, fr, i):
